@@ -32,10 +32,12 @@ Definition superclass_ok (u : junit) (observed : string) : bool :=
 
 Definition type_key (pkg name kind : string) : string := pkg ++ tab ++ name ++ tab ++ kind.
 
-(* which units must contribute: the selected non-test, non-ignored .java files *)
+(* which units must contribute: the selected non-test, non-ignored .java files that declare a type (an empty
+   .java file or a package-info.java declares none: "exactly one entry for each top-level class or interface
+   declared") *)
 Definition expected_units (files : list (string * bool * junit)) : list junit :=
   map snd (List.filter (fun f => negb (snd (fst f)) && negb (contains (fst (fst f)) "testData") &&
-                                 java_code_file_filter (fst (fst f))) files).
+                                 java_code_file_filter (fst (fst f)) && negb (String.eqb (u_name (snd f)) "")) files).
 
 Definition check_pass (full : bool) (units : list junit) (obs : list ds) : list string :=
   let tag := if full then "full_" else "ident_" in
